@@ -40,6 +40,10 @@ def rows_pos_eq(a, b, tol=1e-9):
     return True
 
 
+class HarnessGiveUp(Exception):
+    pass
+
+
 class Hist:
     """one history on the real code; keeps every object ever produced alive and re-checks all of them"""
 
@@ -143,6 +147,15 @@ class Hist:
         sz = np.sum(d ** 2, axis=-1)
         return bool(np.any((nn != 0) & (np.abs(nn) < 1e-9 * sz)))
 
+    def _tick(self):
+        """rejection loops of the generator are bounded: after 300 rejected draws (large composite shapes make "every unit is
+        well separated" improbable) the history ends here — a harness limit, never an observation of the implementation
+        (soak finding: an unbounded loop ran into the check's global time limit and was reported as an `op_raised` Timeout)"""
+        self._ticks = getattr(self, "_ticks", 0) + 1
+        if self._ticks > 300:
+            self._ticks = 0
+            raise HarnessGiveUp()
+
     def make(self, shape):
         g, n, kind = self.g, self.n, self.kind
         shape = tuple(shape)
@@ -162,6 +175,7 @@ class Hist:
                 k = self.supply("polygon_klein", O.klein(g, shape + (self.nv,), n))
                 return H.Polygon(H.Point(k, model="klein"))
             while True:
+                self._tick()
                 v = self.pts(shape + (self.nv,))
                 idl = self.pts(shape + (self.nv,), ideal=True)
                 mask = g.random(shape + (self.nv, 1)) < 0.2                       # some ideal vertices
@@ -180,6 +194,7 @@ class Hist:
             # G18: the history starts from a helper object another object handed out (the edges of a polygon), not from a user-built one
             k = shape[-1]
             while True:
+                self._tick()
                 v = self.pts(shape)
                 kk = v[..., 1:] / v[..., :1]
                 dist = np.linalg.norm(kk[..., :, None, :] - kk[..., None, :, :], axis=-1) + 10 * np.identity(k)
@@ -194,6 +209,7 @@ class Hist:
         if kind == "tangent" and g.random() < 0.15:
             # G18: a tangent vector handed out by a point query
             while True:
+                self._tick()
                 a, b = self.pts(shape), self.pts(shape)
                 if np.min(np.linalg.norm(a[..., 1:] - b[..., 1:], axis=-1)) > 0.15:
                     break
@@ -202,6 +218,7 @@ class Hist:
         if kind == "segment":
             if style < 0.3:
                 while True:
+                    self._tick()
                     a, b = O.klein(g, shape, n), O.klein(g, shape, n)
                     if np.min(np.linalg.norm(a - b, axis=-1)) > 0.15:
                         break
@@ -210,6 +227,7 @@ class Hist:
                 return H.Segment(H.Point(a, model="klein"), H.Point(b, model="klein"))
             # endpoints interior or ideal in every combination, arbitrary representatives (either sign, any scale)
             while True:
+                self._tick()
                 ends = []
                 for _ in range(2):
                     c = g.random()
@@ -756,7 +774,10 @@ class Hist:
 
 
 def run_hist(inp):
-    h = Hist(inp["kind"], inp["shape"], inp["n"], inp["seed"])
+    try:
+        h = Hist(inp["kind"], inp["shape"], inp["n"], inp["seed"])
+    except HarnessGiveUp:
+        return {"bad": [], "steps": 0, "objects": 0, "gave_up": True}
     if not h.check_all(0, "construct"):
         return {"bad": h.bad}
     for step, op in enumerate(inp["ops"], 1):
@@ -764,8 +785,13 @@ def run_hist(inp):
             ok = h.query(op[2:], step)
         else:
             try:
+                h._ticks = 0
                 ok = h.do(op, step)
+            except HarnessGiveUp:
+                break
             except Exception as e:
+                if type(e).__name__ == "Timeout":
+                    raise              # the runner's own time limit is not an observation of the implementation
                 h.bad.append({"what": "op_raised", "op": op, "step": step, "exc": type(e).__name__, "msg": str(e)[:160]})
                 ok = False
         if not ok:
